@@ -529,7 +529,12 @@ def emitter_matchers():
         def has(v):
             return v["t"] == "Some" and v["xs"] and bare(v["xs"][0])["t"] in ("Lit", "Fold") and bare(v["xs"][0])["s"] == ""
         return isinstance(d, dict) and _tree_has(d["tree"], has)
-    return {"C20-empty-litstr-in-option": empty_lit_in_option, "C13-empty-as-braces-off": empty_braces_off, "C13-complex-key-value-map-indent4": complex_key_indent4,
+    def foldstr_folds(rec, d):
+        # an explicit FoldStr whose text has a line break before its last character: readers fold it (documented)
+        def has(v):
+            return v["t"] == "Fold" and ("\n" in v["s"].rstrip("\n") or v["s"].endswith("\n\n"))
+        return isinstance(d, dict) and d.get("verdict") in ("value-changed", "layout-changed-data") and _tree_has(d["tree"], has)
+    return {"C20-foldstr-folds-line-breaks": foldstr_folds, "C20-empty-litstr-in-option": empty_lit_in_option, "C13-empty-as-braces-off": empty_braces_off, "C13-complex-key-value-map-indent4": complex_key_indent4,
             "C20-empty-as-braces-off": empty_braces_off, "C20-complex-key-value-map-indent4": complex_key_indent4,
             "C20-flowmap-complex-key": flowmap_complex_key, "C20-variant-inside-flow": variant_inside_flow}
 
